@@ -235,6 +235,10 @@ def simplify_atom(atom):
                     return ("is", w, u[2])
         if a[0] == "adt" and b[0] == "adt" and a[2] == b[2] and len(a[3]) == len(b[3]) == 0:
             return True
+        # x == ""  <=>  x.is_empty()
+        for u, w in ((a, b), (b, a)):
+            if u[0] == "lit" and u[1] in ("str", "bytes") and len(u[2]) == 0 and w[0] != "lit":
+                return ("empty", w)
         if b[0] == "lit" and a[0] != "lit":
             return ("eq", a, b)
         if a[0] == "lit":
@@ -1302,6 +1306,8 @@ def short_path(p):
 
 def parse_const(v, ty):
     v = v.strip()
+    if v.startswith("<ZST>") and "str" in (ty or v):
+        return ("lit", "str", "")          # the empty string literal as a pattern constant
     if v.startswith('"'):
         try:
             import json
